@@ -264,3 +264,19 @@ CHECKS["C13"] = {
     "outside": "histories interleaving several FAR updates; more than two related PDRs; the integrated run PfcpServer + Gtp5g in one state (the two sides meet at report.Handler, whose two methods are the harness boundary)",
     "assumptions": PFCP_ASSUME + FWD_ASSUME,
 }
+
+CHECKS["C10"] = {
+    "dep_overlays": NL_OV, "extra_pkgs": ["internal/forwarder/perio"],
+    "jobs": {
+        "quick": [{"pkg": "internal/pfcp", "entries": ["ZZ_C10_*"], "witnesses": 3, "max_paths": 400000, "budget_s": 900},
+                  {"pkg": "internal/forwarder", "entries": ["ZZ_C10_*"], "witnesses": 3, "max_paths": 400000, "budget_s": 900}],
+        "thorough": [{"pkg": "internal/pfcp", "entries": ["ZZ_C10_*"], "witnesses": 6, "max_paths": 4000000, "budget_s": 3000},
+                     {"pkg": "internal/forwarder", "entries": ["ZZ_C10_*"], "witnesses": 6, "max_paths": 4000000, "budget_s": 3000}],
+    },
+    "covers": {"all": ["ZZ_C10_Notify:C10.notify.done", "ZZ_C10_Notify:C10.notify.unknown-session", "ZZ_C10_Notify:C10.notify.unknown-urr-dropped", "ZZ_C10_ModRsp:C10.rsp.done",
+                       "ZZ_C10_Multicast:C10.mcast.done", "ZZ_C10_Results:C10.result.done"]},
+    "bounds": {"quick": "data-plane side: REPORT multicast with 1..2 reports over two distinct symbolic SEIDs, symbolic URR ids and six 64-bit counters each, every one of the 18 single-cause trigger words, two concrete instant pairs; query/update/remove results with a symbolic trigger word. PFCP side: a session of either peer with two URRs whose DURAT/VOLUM/EVENT/MNOP settings are symbolic Booleans, batches of 1..2 reports naming arbitrary (known or unknown) URR ids with a symbolic 22-bit trigger word and symbolic counters, delivered for an arbitrary SEID; query / removal / deletion results in the Modification / Deletion response",
+               "thorough": "batches of up to 3 reports"},
+    "outside": "symbolic instants (the NTP conversion divides by 10^9; two concrete instants incl. the last second of NTP era 0); more than 3 reports per batch",
+    "assumptions": PFCP_ASSUME + FWD_ASSUME,
+}
